@@ -342,7 +342,7 @@ def hals_objective(G, B, V, l1, l2):
 # ----------------------------------------------------------------------------- the runs
 # quick: profiled per kind (CPU s / case at Qops: cp 0.7, hals 0.4, ls 0.5, norm 0.8, reg 1.8, tk 2.5, cmtf 0.7, tkreg 1.9, tr 2.6, spec 0.4, proc 0.2, rep 0.5,
 # tks 4.4, modes 0.02): every kind is kept, the budget is dealt out over the (entry, variant, kind) groups starting at a seed-dependent group
-BUDGET = {"quick": dict(cp=48, hals=20, ls=16, norm=8, reg=4, tk=6, cmtf=5, tkreg=4, tr=5, spec=4, proc=4, rep=8, tks=2, modes=32, loop=54),
+BUDGET = {"quick": dict(cp=48, hals=20, ls=16, norm=8, reg=4, tk=6, cmtf=5, tkreg=4, tr=5, spec=4, proc=4, rep=8, tks=2, modes=32, loop=72),
           "thorough": dict(cp=440, hals=200, ls=180, norm=80, reg=50, tk=60, cmtf=50, tkreg=40, tr=50, spec=60, proc=60, rep=80, tks=20, modes=200, loop=300)}
 KINDS = ("cp", "hals", "ls", "norm", "reg", "tk", "cmtf", "tkreg", "tr", "spec", "proc", "rep", "tks", "modes", "loop")
 
@@ -1637,6 +1637,155 @@ def run_regressors(ctx, n_runs):
                     ctx.add_case("ls", ls_case_lit, dict(A=A, Y=Ym, X=Xm, prev=Xp, lam=reg), dict(entry=entry, inputs=dict(inputs, block=j)))
 
 
+def cplx(r, *shape):
+    return r.randn(*shape) + 1j * r.randn(*shape)
+
+
+def np_multi_mode(T, mats, modes, herm=False):
+    """T x_modes mats (herm: with the CONJUGATE transposes), plain numpy - independent of tensorly.tenalg"""
+    for m_, U in zip(modes, mats):
+        M = np.conj(U).T if herm else U
+        T = np.moveaxis(np.tensordot(M, T, axes=(1, m_)), 0, m_)
+    return T
+
+
+def run_complex(ctx, n_runs):
+    """COMPLEX-valued data (the theorems are stated over R; over C the same algebra holds with conjugate transposes - judged here by predicates on the
+    implementation, not by the model): HOOI (tucker / partial_tucker, svd and random init, low rank + dense noise and pure dense noise, orders 3-4, tol = 0,
+    10-40 sweeps): reported history and objective recomputed with plain numpy from prefix runs non-increasing, reported == recomputed; every SVD call of a
+    sweep is handed the unfolding of the tensor projected with the CONJUGATE transposes of the current other factors (Gram matrices Y Y^H), its answer has
+    orthonormal columns (U^H U = I) and attains the Ky Fan optimum of Y Y^H.  parafac on complex data: reported history non-increasing and equal to the error
+    of the iterate handed to the callback (normal equations with the conjugated Khatri-Rao product)"""
+    import tensorly as tl
+    from tensorly.decomposition import _tucker, _cp
+    chk, rng = ctx.chk, ctx.rng
+    for it in range(n_runs):
+        r = np_rng(rng)
+        if it % 3 == 2:
+            entry = "tensorly.decomposition.parafac"
+            shape = rng.choice([(4, 3, 3), (3, 3, 2, 2), (5, 4), (4, 4, 3)])
+            rank = 2
+            facs0 = [cplx(r, d, rank) for d in shape]
+            X = cp_full(np.ones(rank), facs0) + rng.choice([0.05, 0.3]) * cplx(r, *shape)
+            kw = dict(n_iter_max=rng.choice([10, 20]), tol=0, init=rng.choice(["random", "svd"]) if rank <= min(shape) else "random", random_state=r.randint(1 << 30), return_errors=True)
+            if it % 2: kw["normalize_factors"] = True
+            if it % 4 == 1: kw["linesearch"] = True
+            its = []
+            inputs = dict(shape=list(shape), rank=rank, variant="complex", tensor_real=X.real, tensor_imag=X.imag, options=kw)
+            attempt(ctx, entry)
+            out = C.call_impl(_cp.parafac, X.copy(), rank, callback=lambda cp, e: its.append((None if cp[0] is None else np.array(cp[0]), [np.array(f) for f in cp[1]])) and None, **kw)
+            chk.hist("algorithm", "parafac:complex")
+            if out[0] != "ok":
+                raised(ctx, entry, out[1]); continue
+            errs = [float(np.real(e)) for e in out[1][1]]
+            history_check(ctx, entry, inputs, errs, what="error history (complex data)")
+            nx = float(np.linalg.norm(X))
+            objs = [float(np.linalg.norm(X - cp_full(np.ones(rank) if w_ is None else w_, f_))) / nx for (w_, f_) in its]
+            if len(objs) == len(errs) + 1:
+                history_check(ctx, entry, inputs, objs, what="objective recomputed from callback iterates (complex data)")
+                for t_, (e_, o_) in enumerate(zip(errs, objs[1:])):
+                    ctx.py_blocks += 1
+                    if not abs(e_ - o_) <= 1e-6 * (1.0 + o_):
+                        chk.finding(entry, dict(inputs, iteration=t_), f"complex data: reported error {e_!r} is not the relative error {o_!r} of the iterate handed to the callback",
+                                    "C07_cp_reported_is_sqerr", observed=e_, expected=o_)
+                        break
+            continue
+        # ---- HOOI
+        shape = [(5, 4, 4), (4, 4, 3), (4, 3, 3, 3), (6, 5, 4), (5, 5, 5)][it % 5]
+        nd = len(shape)
+        dense = it % 4 == 1
+        if dense:
+            X = cplx(r, *shape)
+        else:
+            G0 = cplx(r, *([2] * nd))
+            X = np_multi_mode(G0, [cplx(r, d, 2) for d in shape], range(nd)) 
+            X = X + rng.choice([0.2, 0.6]) * float(np.linalg.norm(X)) / math.sqrt(X.size) * cplx(r, *shape)
+        init = ["svd", "random"][(it // 2) % 2]
+        sweeps = rng.choice([10, 20, 40])
+        partial = it % 6 == 4
+        if partial:
+            modes = sorted(rng.sample(range(nd), 2)); ranks = [rng.choice([1, 2]) for _ in modes]
+            fn, entry = _tucker.partial_tucker, "tensorly.decomposition.partial_tucker"
+            kw = dict(rank=ranks, modes=list(modes), tol=0, init=init, random_state=r.randint(1 << 30))
+        else:
+            modes = list(range(nd)); ranks = [rng.choice([1, 2, 2]) for _ in shape]
+            fn, entry = _tucker.tucker, "tensorly.decomposition.tucker"
+            kw = dict(rank=ranks, tol=0, init=init, random_state=r.randint(1 << 30), return_errors=True)
+        m = len(modes)
+        inputs = dict(shape=list(shape), rank=ranks, variant="complex:" + init + ("+dense" if dense else "") + ("+partial" + str(modes) if partial else ""),
+                      tensor_real=X.real, tensor_imag=X.imag, options=dict(kw, n_iter_max=sweeps))
+        svds = []
+        osvd = _tucker.svd_interface
+
+        def svd_c(matrix, *a, **k):
+            res = osvd(matrix, *a, **k)
+            svds.append((np.array(matrix), np.array(res[0])))
+            return res
+        attempt(ctx, entry)
+        _tucker.svd_interface = svd_c
+        try:
+            out = C.call_impl(fn, X.copy(), n_iter_max=sweeps, **kw)
+        finally:
+            _tucker.svd_interface = osvd
+        chk.hist("algorithm", ("partial_tucker:" if partial else "tucker:") + "complex")
+        if out[0] != "ok":
+            raised(ctx, entry, out[1]); continue
+        errs = [float(np.real(e)) for e in out[1][1]]
+        history_check(ctx, entry, inputs, errs, what="error history (complex data)")
+        nx = float(np.linalg.norm(X))
+
+        def relerr(dec):
+            core, facs = dec
+            return float(np.linalg.norm(X - np_multi_mode(np.asarray(core), [np.asarray(f) for f in facs], modes))) / nx
+        reported_matches(ctx, entry, inputs, [errs[-1]], [relerr(out[1][0])])
+        # objective recomputed (plain numpy) from prefix runs spread over the run
+        pts = sorted({1, 2, 3, sweeps // 2, sweeps})
+        objs, ok = [], True
+        for nit in pts:
+            o2 = C.call_impl(fn, X.copy(), n_iter_max=nit, **kw)
+            if o2[0] != "ok":
+                ok = False; break
+            objs.append(relerr(o2[1][0]))
+        if ok:
+            history_check(ctx, entry, inputs, objs, what="objective recomputed from prefix runs (complex data)")
+            reported_matches(ctx, entry, inputs, [errs[p_ - 1] for p_ in pts], objs)
+        # every SVD call of a sweep: handed the unfolding of X projected with the CONJUGATE transposes of the current other factors; the answer has
+        # orthonormal columns and attains the sum of the leading eigenvalues of Y Y^H
+        off = len(svds) - sweeps * m
+        if off not in (0, m):
+            continue
+        bad = False
+        for tt in range(sweeps):
+            for jj in range(m):
+                Y, U = svds[off + tt * m + jj]
+                rk_ = U.shape[1]
+                if U.shape[0] != Y.shape[0] or rk_ > min(Y.shape):
+                    continue
+                ctx.py_blocks += 1
+                ny = float(np.sum(np.abs(Y) ** 2)) + 1e-300
+                lam = np.sort(np.linalg.eigvalsh(Y @ np.conj(Y).T))[::-1]
+                got = float(np.sum(np.abs(np.conj(U).T @ Y) ** 2))
+                orth = float(np.max(np.abs(np.conj(U).T @ U - np.eye(rk_))))
+                if orth > 1e-8 or got < float(np.sum(lam[:rk_])) - 1e-9 * ny:
+                    chk.finding(entry, dict(inputs, sweep=tt, block=jj), f"complex data: the HOOI factor does not have orthonormal columns (defect {orth:.2e}) or does not attain the Ky Fan "
+                                f"optimum of Y Y^H: {got!r} < {float(np.sum(lam[:rk_]))!r}", "C07_hooi_block_descent (attained Ky Fan value)", observed=got, expected=float(np.sum(lam[:rk_])))
+                    bad = True; break
+                if tt >= 1:
+                    fb = [svds[off + tt * m + q][1] if q < jj else svds[off + (tt - 1) * m + q][1] for q in range(m)]
+                    if not all(f.shape == (shape[modes[q]], ranks[q]) for q, f in enumerate(fb)):
+                        continue
+                    T = np_multi_mode(X, [fb[q] for q in range(m) if q != jj], [modes[q] for q in range(m) if q != jj], herm=True)
+                    Yexp = np.moveaxis(T, modes[jj], 0).reshape(shape[modes[jj]], -1)
+                    ctx.py_blocks += 1
+                    if Y.shape[0] != Yexp.shape[0] or not np.allclose(Y @ np.conj(Y).T, Yexp @ np.conj(Yexp).T, rtol=0, atol=1e-9 * (float(np.sum(np.abs(Yexp) ** 2)) + 1e-300)):
+                        chk.finding(entry, dict(inputs, sweep=tt, block=jj), "complex data: the matrix handed to the SVD of a HOOI block is not the unfolding of the tensor projected with the CONJUGATE "
+                                    "transposes of the current other factors (Gram matrices Y Y^H differ)", "C07_core_norm_unfolding", expected=0.0,
+                                    observed=float(np.max(np.abs(Y @ np.conj(Y).T - Yexp @ np.conj(Yexp).T))) if Y.shape[0] == Yexp.shape[0] else "shape")
+                        bad = True; break
+            if bad:
+                break
+
+
 STOP_ALGS = {"parafac": 0, "nn_hals": 0, "tucker": 1, "parafac2": 2, "tr_als": 3, "cmtf": 4, "cpreg": 5, "tkreg": 5, "hals": 6}
 
 
@@ -1682,6 +1831,7 @@ def run_stop_rules(ctx, n_runs):
     min_it = {0: 1, 1: 2, 2: 1, 3: 1, 4: 1, 5: 2, 6: 1}
     for it in range(n_runs):
         name = names[it % len(names)]
+        visit = it // len(names)             # how often this algorithm has been run before: odd visits use a boundary tolerance (modes 0, 1, 2 in turn)
         alg = STOP_ALGS[name]
         r = np_rng(rng)
         tol = rng.choice([1e-2, 3e-3, 1e-3, 1e-4]) if it % 11 != 10 else 0.0       # tol = 0: `if tol:` switches the test off (parafac, tucker, parafac2, tr)
@@ -1692,7 +1842,7 @@ def run_stop_rules(ctx, n_runs):
         if name == "parafac":
             shape, rank = rng.choice([(4, 3, 3), (5, 4), (3, 3, 2, 2)]), 2
             X = lowrank(r, shape, rank, rng.choice([0.05, 0.3]))
-            abs_crit = rng.random() < 0.5
+            abs_crit = visit % 4 in (0, 1)
             opts = dict(cvg_criterion="abs_rec_error" if abs_crit else "rec_error", linesearch=rng.random() < 0.3)
             entry = "tensorly.decomposition.parafac"
 
@@ -1702,7 +1852,7 @@ def run_stop_rules(ctx, n_runs):
         elif name == "nn_hals":
             shape, rank = rng.choice([(4, 3, 3), (5, 4)]), 2
             X = lowrank(r, shape, rank, 0.1, nonneg=True)
-            abs_crit = rng.random() < 0.5
+            abs_crit = visit % 4 in (0, 1)
             opts = dict(cvg_criterion="abs_rec_error" if abs_crit else "rec_error")
             entry = "tensorly.decomposition.non_negative_parafac_hals"
 
@@ -1786,16 +1936,24 @@ def run_stop_rules(ctx, n_runs):
                 reg_objs[(tol_, nmax_)] = fit + reg * pen
                 return ("ok", [float(v) for v in est.norm_W_], int(est.n_iterations_))
         boundary = None
-        if (it + it // len(names)) % 2 == 1 or name == "hals":
-            # boundary tolerance from the trajectory of a run that does not stop
+        if visit % 2 == 1 or name == "hals":
+            # boundary tolerance from the trajectory of a run that does not stop.  Mode 0: just ABOVE the compared quantity at the first iteration at which the rule may
+            # fire (it fires exactly there; a rule allowed to fire only later, or comparing a larger quantity, does not); mode 1: just above the quantity one iteration
+            # EARLIER (the rule must not fire there; a rule allowed to fire earlier does); mode 2: just BELOW the quantity at a random iteration (the rule must not fire
+            # there; a rule comparing a smaller quantity does)
             o0 = call(1e-300, nmax)
             if o0[0] == "ok" and len(o0[1]) == nmax and all(math.isfinite(v) for v in o0[1]):
                 lo = min_it[alg]
-                i_ = lo if (rng.random() < 0.4 or lo + 1 >= nmax) else rng.randrange(lo, nmax)
+                mode = (visit // 2) % 3 if name != "hals" else visit % 3
+                if mode == 0 or lo + 1 >= nmax:
+                    i_, sgn = lo, 1.0
+                elif mode == 1:
+                    i_, sgn = (lo - 1, 1.0) if lo >= 2 else (lo, -1.0)
+                else:
+                    i_, sgn = rng.randrange(lo, nmax), -1.0
                 if 1 <= i_ < nmax:
                     q0 = stop_quantity(alg, abs_crit, o0[1][i_], o0[1][i_ - 1], o0[1][0])
                     if math.isfinite(q0) and q0 > 1e-12:
-                        sgn = rng.choice([1.0, -1.0])
                         tol = q0 * (1.0 + sgn * 1e-6); boundary = (i_, sgn)
         attempt(ctx, entry)
         out = call(tol, nmax)
@@ -1846,7 +2004,7 @@ def static_tie(chk, ctx=None):
     """corr:C07-static: the reported-error formulas and the line-search acceptance tests are re-extracted from the CURRENT sources (ast),
     translated to Gallina and the linking theorems re-checked by coqc against the regenerated terms.
     SEMANTIC FALLBACK: an item whose source form is not recognised (or whose regenerated goal is not closed by ring / field / lra) is not an alarm by
-    itself - an equivalent rewrite looks like that.  It is then decided by the dynamic predicates that judge the SAME quantity on the implementation in
+    itself - an equivalent rewrite looks like that (a stopping test that WAS translated and is not equivalent to the model's rule is a broken tie at once).  It is then decided by the dynamic predicates that judge the SAME quantity on the implementation in
     this very run ('the reported error is the error of the reported iterate', the judged line-search decisions): at least SEM_RULES[item][0] such
     comparisons were made and none failed -> a note (cov.static_tie.semantic_fallback); otherwise, or if they did not run, a broken tie (fail closed)"""
     import os, shutil, subprocess
@@ -1885,7 +2043,8 @@ def static_tie(chk, ctx=None):
         for j, k in enumerate(sfiles):
             pk = coqc_stop(f"Stop_{j}.v", [k])
             if pk.returncode != 0:
-                failed.append((k, "the stopping test regenerated from the current source is not the model's rule: " + (pk.stderr or pk.stdout)[-500:]))
+                # translated but NOT equivalent to the model's rule: no semantic fallback (the loop replays are only weakly discriminating for a changed rule)
+                failed.append((k + " [refuted]", "the stopping test regenerated from the current source is not the model's rule: " + (pk.stderr or pk.stdout)[-500:]))
         if len(failed) == n0:
             failed.append(("?", (ps.stderr or ps.stdout)[-1200:]))
     for b in list(bad) + list(sbad):
@@ -1910,7 +2069,7 @@ def static_tie(chk, ctx=None):
 def PLAN(quick):
     return [(run_corpus, 0), (run_parafac, 80 if quick else 400), (run_fixed_modes, 12 if quick else 36), (run_nn_hals, 18 if quick else 120), (run_hals_nnls, 36 if quick else 300),
             (run_tucker, 18 if quick else 120), (run_tucker_svd, 6 if quick else 24), (run_parafac2, 16 if quick else 72), (run_p2_linestep, 30 if quick else 120), (run_tr_als, 12 if quick else 80),
-            (run_cmtf, 12 if quick else 80), (run_regressors, 12 if quick else 60), (run_stop_rules, 54 if quick else 270)]
+            (run_cmtf, 12 if quick else 80), (run_regressors, 12 if quick else 60), (run_stop_rules, 72 if quick else 288), (run_complex, 18 if quick else 90)]
 
 
 def run(chk):
